@@ -105,3 +105,68 @@ def bad_solve(pctx):
     if out.returncode == EXIT_TIMEDOUT:
         return replace(out, result=unsat) if hasattr(out, "__dataclass_fields__") else out
     return out
+
+
+def run_refined_shutdown(work: Path) -> list[tuple[str, str]]:
+    """solve_end_to_end: the first answer is `sat` with a model that mentions an abstraction, so a second (refined) job is
+    issued; that job hangs.  A shutdown of the function's executor while it runs must reach it: solver process dead,
+    solve_end_to_end back, and a refined job issued after the shutdown refused."""
+    import threading
+
+    from halmos.processes import ShutdownError
+    from halmos.solve import solve_end_to_end
+
+    d = work / "solve-refined"
+    d.mkdir(parents=True, exist_ok=True)
+    pidfile = d / "refined.pid"
+    stub = d / "stub.sh"
+    stub.write_text("#!/bin/sh\ncase \"$1\" in\n  *refined*) echo $$ > " + str(pidfile) + "; exec sleep 60;;\n"
+                    "  *) echo sat; echo '((define-fun f_evm_bvmul_256 ((x!0 (_ BitVec 256)) (x!1 (_ BitVec 256))) (_ BitVec 256) #x" + "0" * 64 + "))';;\nesac\n")
+    os.chmod(stub, stat.S_IRWXU)
+    args = mk_args(stub, "0")
+    sctx = SolvingContext(dump_dir=d)
+    q = SMTQuery("(declare-fun f_evm_bvmul_256 ((_ BitVec 256) (_ BitVec 256)) (_ BitVec 256))\n(assert true)", [])
+    pctx = PathContext(args=args, path_id=7, solving_ctx=sctx, query=q)
+    box = {}
+    th = threading.Thread(target=lambda: box.update(out=_safe(lambda: solve_end_to_end(pctx))), daemon=True)
+    th.start()
+    t0 = time.time()
+    while time.time() - t0 < 10 and not pidfile.exists():
+        time.sleep(0.05)
+    v = []
+    if not pidfile.exists():
+        sctx.executor.shutdown(wait=False)
+        raise MachineryError("the refined solver job was never started")
+    pid = int(pidfile.read_text().strip() or 0)
+    sctx.executor.shutdown(wait=False)
+    th.join(timeout=8)
+    alive = pid and os.path.exists(f"/proc/{pid}") and "sleep" in open(f"/proc/{pid}/cmdline").read()
+    if th.is_alive():
+        v.append(("refined-job-blocks-after-shutdown", "solve_end_to_end is still blocked 8 s after the executor of its function was shut down (the refined job was not reached)"))
+    if alive:
+        v.append(("refined-solver-survives-shutdown", f"the solver process of the refined query (pid {pid}) is still running after the shutdown request"))
+        try:
+            os.kill(pid, 9)
+        except OSError:
+            pass
+    try:
+        solve_low_level(pctx.refine())
+        v.append(("refined-job-accepted-after-shutdown", "a refined job issued after the shutdown was accepted"))
+    except ShutdownError:
+        pass
+    except Exception:  # noqa: BLE001 - any other refusal is fine
+        pass
+    finally:
+        if pidfile.exists():
+            try:
+                os.kill(int(pidfile.read_text().strip() or 0), 9)
+            except (OSError, ValueError):
+                pass
+    return v
+
+
+def _safe(f):
+    try:
+        return f()
+    except Exception as e:  # noqa: BLE001
+        return e
